@@ -145,6 +145,10 @@ class Adapter(EnvAdapter):
             out.append(c(f"{g}3a3_t7", gen, 3, 3, 7, 40, 11, probe_cap=125, probe_every=2))
             out.append(c(f"{g}3a3_t2_resets", gen, 3, 3, 2, 300, 1, probe_cap=6))
         out.append(c("default_rw10a10_t50", "default", 10, 10, 50, 12, 56, probe_every=4, probe_cap=72))
+        # a single agent; a board larger than the default with more agents than the default
+        out.append(c("rw5a1_t7", "random_walk", 5, 1, 7, 12, 11))
+        out.append(c("un5a1_t7", "uniform", 5, 1, 7, 12, 11))
+        out.append(c("rw12a12_t7", "random_walk", 12, 12, 7, 4, 11, probe_cap=72, probe_every=2))
         out.append(dict(c("rw4a3_t7_rw", "random_walk", 4, 3, 7, 18, 12, probe_cap=36), ctor=dict(generator="random_walk", grid_size=4,
                         num_agents=3, time_limit=7, reward=(2.5, -0.25))))
         out.append(dict(c("un4a2_t7_rwint", "uniform", 4, 2, 7, 18, 12, probe_cap=25), ctor=dict(generator="uniform", grid_size=4,
